@@ -2,7 +2,8 @@
 (* code -> spec for C03: every row of the ndjson file is one execution recorded from   *)
 (* the real library on an input TLC did not choose (random nested targets, random       *)
 (* type-directed spec trees of depth <= 5 with instrumented callables):                 *)
-(*   {heap, root, spec, obs}  with obs = {ok, v, exc, log, cells}                       *)
+(*   {heap, root, spec, opts, obs}  with obs = {ok, v, exc, log, out, cells}             *)
+(* (opts: top-level default / skip_exc / scope; out: what Inspect reported)              *)
 (* The same GlomAuto!Eval that TLC model-checks is evaluated on the recorded input and  *)
 (* every observable C03 names is compared with what the library did: outcome, returned  *)
 (* value (graph up to renaming of the cells glom built), error class, call log (order,  *)
@@ -17,11 +18,12 @@ Init == i = 1
 Next == i <= Len(Rows) /\ i' = i + 1
 
 Verdict(r) ==
-  LET p == Outcome(Run(r.heap, r.root, r.spec, "none"), Len(r.heap)) o == r.obs IN
+  LET p == Outcome(RunTop(r.heap, r.root, r.spec, r.opts, "none"), Len(r.heap)) o == r.obs IN
   IF p.skip # "" THEN "skip:" \o p.skip
   ELSE IF p.ok # o.ok THEN "outcome"
   ELSE IF p.exc # o.exc THEN "errclass"
   ELSE IF p.log # o.log THEN "calllog"
+  ELSE IF p.out # o.out THEN "reports"
   ELSE IF p.v # o.v THEN "value"
   ELSE IF p.cells # o.cells THEN "cells"
   ELSE ""
